@@ -703,28 +703,14 @@ func funcValueFor(params []string) *bigslice.FuncValue {
 	return fv
 }
 
-// sigOf names the finding a case belongs to if it is judged a violation.
+// sigOf names the finding a case belongs to if it is judged a violation.  Only
+// the open finding has a signature of its own.  The three repaired defects
+// (ReaderFunc result arity, variadic functions in the exact-form constructors,
+// shard parameter of a defined int type) have none: should the old behaviour
+// come back, the cases are plain violations of their constructor.
 func sigOf(d Desc) string {
-	isFunc := d.Fn != nil && d.Fn.NonFunc == ""
-	firstParam := ""
-	if isFunc {
-		ins := d.Fn.Ins
-		if len(ins) > 0 && ins[0] == "ctx" {
-			ins = ins[1:]
-		}
-		if len(ins) > 0 {
-			firstParam = ins[0]
-		}
-	}
-	switch {
-	case d.Ctor == "readerfunc" && isFunc && len(d.Fn.Outs) != 2:
-		return "readerfunc-numout-not-checked"
-	case isFunc && d.Fn.Variadic &&
-		(d.Ctor == "fold" || d.Ctor == "reduce" || d.Ctor == "repartition" || d.Ctor == "readerfunc" || d.Ctor == "writerfunc"):
-		return "exact-form-accepts-variadic"
-	case (d.Ctor == "readerfunc" || d.Ctor == "writerfunc") && firstParam == "myInt":
-		return "shard-param-named-int-accepted"
-	case d.Ctor == "reshuffle" || d.Ctor == "reshard" || d.Ctor == "cogroup":
+	switch d.Ctor {
+	case "reshuffle", "reshard", "cogroup":
 		for _, n := range d.Slices {
 			if !wellFormed(slices[n]) {
 				return "prefix-exceeds-columns-panics"
@@ -732,6 +718,27 @@ func sigOf(d Desc) string {
 		}
 	}
 	return "ctor:" + d.Ctor
+}
+
+// repairedRegion tells whether a case lies in one of the two regions repaired by
+// fix: commits (a variadic function, or a shard parameter of a defined int type,
+// given to an exact-form constructor).  These are ordinary reject cases now; the
+// quick tier keeps all of them so that a regression is seen at once.
+func repairedRegion(d Desc) bool {
+	if d.Fn == nil || d.Fn.NonFunc != "" {
+		return false
+	}
+	switch d.Ctor {
+	case "fold", "reduce", "repartition", "readerfunc", "writerfunc":
+	default:
+		return false
+	}
+	ins := d.Fn.Ins
+	if len(ins) > 0 && ins[0] == "ctx" {
+		ins = ins[1:]
+	}
+	named := (d.Ctor == "readerfunc" || d.Ctor == "writerfunc") && len(ins) > 0 && ins[0] == "myInt"
+	return d.Fn.Variadic || named
 }
 
 // invocationDescs: for each parameter list, the exact arguments, every single
@@ -1098,7 +1105,7 @@ func main() {
 			var rejected []int
 			keep := make([]bool, len(rp))
 			for i, x := range rp {
-				if x.res.class == "typeerr" {
+				if x.res.class == "typeerr" && !repairedRegion(x.d) {
 					rejected = append(rejected, i)
 				} else {
 					keep[i] = true
